@@ -30,7 +30,7 @@ ASSUMPTIONS = [
     "int * composite (reflected multiplication of an already composite object) is not part of the statement and is not judged",
     "bool multipliers are ints in Python and are not judged",
 ]
-REQUIRED = {"nodes_checked": 1000, "calls_checked": 50, "bad_multipliers_refused": 10, "op_nodes_checked": 200}
+REQUIRED = {"calls_with_non_bool_results": 100, "nodes_checked": 1000, "calls_checked": 50, "bad_multipliers_refused": 10, "op_nodes_checked": 200}
 SHARD_TIMEOUT = {"quick": 600, "thorough": 1800}
 
 KINDS = ["D1", "D2", "E1", "E2", "C", "H", "G"]
@@ -329,6 +329,37 @@ def run_calls(spec, rec):
                     rec.viol("C17/moves/call-order", f"plain composite of {n} probes called elements {log}", {"bits": bits, "form": fname, "log": list(log)})
                 if bool(res) != any(bits):
                     rec.viol("C17/moves/call-result", f"plain composite returned {res!r} for element results {bits}", {"bits": bits, "form": fname})
+    # element results that are truthy / falsy without being bool (a user move without a return statement gives None):
+    # every element is still called once, in order, and the composite succeeds exactly when some element's result is truthy
+    import numpy as _np
+
+    pool = [None, 0, 1, 2, "", "moved", 0.0, 2.5, _np.False_, _np.True_, [], [0], False, True]
+    r = rng_for("C17calls", spec["seed"])
+    for k in range(400):
+        n = int(r.integers(1, 6))
+        vals = [pool[int(i)] for i in r.integers(0, len(pool), n)]
+        probes = [Probe(i, v) for i, v in enumerate(vals)]
+        comp = CompositeMove(list(probes)) if k % 2 == 0 or n < 2 else None
+        if comp is None:
+            comp = probes[0] + probes[1]
+            for q in probes[2:]:
+                comp = comp + q
+        if type(comp) is not CompositeMove:
+            continue
+        log.clear()
+        rec.evaluations += 1
+        rec.count("calls_checked")
+        rec.count("calls_with_non_bool_results")
+        wit = {"element_results": [repr(v) for v in vals]}
+        try:
+            res = comp(object())
+        except Exception as ex:  # noqa: BLE001
+            rec.viol(f"C17/moves/call-raised/{type(ex).__name__}", f"plain composite raised {type(ex).__name__}: {ex} for element results {wit['element_results']} (elements called before: {log})", wit)
+            continue
+        if log != list(range(n)):
+            rec.viol("C17/moves/call-order", f"plain composite of {n} probes called elements {log}", {**wit, "log": list(log)})
+        if bool(res) != any(bool(v) for v in vals):
+            rec.viol("C17/moves/call-result", f"plain composite returned {res!r} for element results {wit['element_results']}", wit)
     # repeated element: a*3 over a probe calls it three times
     p = Probe("x", True)
     comp = p * 3
